@@ -475,3 +475,47 @@ Fixpoint rb_scan (fuel : nat) (seg : N) (hdr : N -> option (N * N)) (blocks : N)
 (* the records of a decoded directory that lie in the live range [s, e] *)
 Definition live_of (s e : N) (recs : list rrec) : list rrec :=
   filter (fun r => negb (N.eqb s 0) && N.leb s (r_id r) && N.leb (r_id r) e) recs.
+
+(* ---- what range a manifest GUARANTEES ------------------------------------------------------------
+   The live range written into the manifest is [SegmentedLog::live_range] read in writeout_start
+   (rollback/mod.rs:314) BEFORE this sync's prune_oldest advances the start (post-meta, :338): the
+   manifest of a commit that drops the oldest delta still names that delta, and the same sync unlinks
+   its segment after the manifest fsync.  The reader copes: seglog::open starts the live region at
+   the FIRST record with id >= start_live (Recovery::enter_live, seglog/mod.rs:550) and Rollback::read
+   trims to max_rollback_log_len (rollback/mod.rs:149).  So a manifest (s, e) of a store opened with
+   max_rollback_log_len = m promises the records max(s, e + 1 - m) .. e, not s .. e.  The driver
+   (ocaml/rb_cmds.ml) maps every manifest range through [guaranteed] before it becomes the old / new range
+   of an instance or the payload of an [EMetaWrite]. *)
+Definition guaranteed (maxlen s e : N) : N * N :=
+  if N.eqb s 0 then (0, 0)%N else (N.max s (e + 1 - maxlen), e)%N.
+
+(* ---- the range the READER needs -------------------------------------------------------------------
+   seglog::open walks every segment file from its first record (Recovery::scan_segment: headers must be
+   readable and the ids consecutive, "IDs are not ordered" otherwise) until it has seen end_live.  So
+   besides the promised records the reader needs the records that PRECEDE the first promised one in its
+   segment file: the range handed to the monitor starts at the first record of the segment that holds
+   the first promised record ([scan_start]); the segments before it may disappear.
+   [mk_inst m prev all (os,oe) (ns,ne) pre]: the instance of one sync from max_rollback_log_len [m] (0 = take
+   the ranges literally), the start the previous manifest promised, every record [all] decoded from the
+   pre-sync segment files, the ranges stored in the old and in the new manifest and the events before the
+   manifest write (the new range can start in the segment the new record was appended to). *)
+Definition scan_start (recs : list rrec) (s : N) : N :=
+  match find_rec recs s with
+  | None => s
+  | Some r => fold_left (fun m x => if same_seg x (r_seg r) && N.ltb (r_id x) m then r_id x else m) recs s
+  end.
+
+(* A reopened handle starts from the manifest's (lagging) start, so the start stored in later manifests can
+   lag by more than one record and, after a rollback, [guaranteed] alone would name records that were
+   pruned long ago.  What a manifest promises is therefore relative to what the previous one promised:
+   the promised start never moves backwards while the log is non-empty ([prev] = the promised start of the
+   previous manifest, 0 = none). *)
+Definition eff_start (m prev s e : N) : N :=
+  if N.eqb s 0 then 0%N else N.max (if N.eqb m 0 then s else fst (guaranteed m s e)) prev.
+
+Definition mk_inst (m prev : N) (all : list rrec) (os oe ns ne : N) (pre : list ev) : inst :=
+  let o_eff := eff_start m prev os oe in
+  let n_eff := eff_start m o_eff ns ne in
+  let o_s := scan_start all o_eff in
+  {| o_start := o_s; o_end := oe; o_recs := live_of o_s oe all;
+     n_start := scan_start (all ++ rev (flat_map rec_of_ev pre)) n_eff; n_end := ne |}.
